@@ -120,6 +120,25 @@ def make_specs(seed, quick, volume=1):
                               "shots": int(rnd.choice([2, 5, 20])), "m": 3 if kind == "povmt" else (2 if kind == "qmpt" else None),
                               "eps_proj": 1e-22, "noseq": True,
                               "ests": [("ple", "eq_ineq"), ("ple", "ineq_eq"), ("lme", "fse", "pgdb", "eq_ineq")]})
+    # (f) the option sets of the loss families: inverse-covariance weights of the squared-error losses (shot counts for which the
+    #     weights stay moderate) and identity-weight relative entropy, exact data of boundary and interior objects; the loss and
+    #     algorithm objects are afterwards re-used for a second tomography of the same size ("reuse")
+    for rep in range((1 if quick else 3) * volume):
+        for kind, m in (("qst", None), ("qpt", None), ("povmt", 2)):
+            for para in (True, False):
+                for data in ("exact_b", "exact_i"):
+                    salt += 1
+                    modes = ["inverse_sample_covariance", "inverse_unbiased_covariance"]
+                    if salt % 2:
+                        modes.reverse()
+                    specs.append({"seed": seed, "salt": salt, "sys": "1qubit", "kind": kind, "para": para, "data": data,
+                                  "shots": 1000, "exact_shots": [10, 100][salt % 2], "m": m, "eps_proj": None, "noseq": True,
+                                  "reuse": True,
+                                  # (generic loss only where a 1000-iteration run stays cheap)
+                                  "ests": [("lme", "se" if kind != "qpt" else "fse", "pgdb", "eq_ineq", None, modes[0]),
+                                           ("lme", "fse", "pgdb", "eq_ineq", None, modes[1]),
+                                           ("lme", ["re", "fre"][salt % 2] if kind != "qpt" else "fre", "pgdb", "eq_ineq"),
+                                           ("lme", ["fre", "re"][salt % 2] if kind != "qpt" else "fre", "pgdb", "eq_ineq")]})
     # (c) the installed projections leave physical points where they are
     for rep in range((2 if quick else 6) * volume):
         for sysname in (["1qubit"] if quick else ["1qubit", "1qutrit"]):
@@ -191,7 +210,7 @@ def setup(spec):
     elif spec["data"] == "few":
         empi = L.fewshot_data(g, qt, true, spec["shots"])
     elif spec["data"].startswith("exact"):
-        empi = L.exact_data(qt, true)
+        empi = L.exact_data(qt, true, shots=spec.get("exact_shots", 1000))
     else:
         empi = L.farout_data(g, qt, true, spec["data"][4:])
     return g, qt, c, m, true, empi
@@ -207,7 +226,24 @@ def tolerances(spec, m):
 def est_name(est):
     if est[0] == "ple":
         return "ple-" + est[1]
-    return f"{est[1]}-{est[2]}-{est[3]}" + (f"-budget{est[4]}" if len(est) > 4 and est[4] else "")
+    return f"{est[1]}-{est[2]}-{est[3]}" + (f"-budget{est[4]}" if len(est) > 4 and est[4] else "") \
+        + (f"-{est[5]}" if len(est) > 5 and est[5] else "")
+
+
+def _reuse_default(spec):
+    """two of the cell's backtracking estimators (rotating with the salt) take part in the object re-use check"""
+    cand = [e for e in spec["ests"] if e[0] == "lme" and e[2] == "pgdb"]
+    if len(cand) <= 2:
+        return cand[:1] if not spec.get("reuse") else cand
+    k = spec["salt"] % 2
+    return [cand[k], cand[2 + k]] if len(cand) >= 4 else cand[:2]
+
+
+def est_kwargs(est):
+    kw = {"max_iteration_optimization": int(est[4])} if len(est) > 4 and est[4] else {}
+    if len(est) > 5 and est[5]:
+        kw["mode_weight"] = est[5]
+    return kw
 
 
 def run_est(qt, empi, est):
@@ -215,8 +251,7 @@ def run_est(qt, empi, est):
     if est[0] == "ple":
         r, msg = L.run_ple(qt, empi, est[1])
     else:
-        kw = {"max_iteration_optimization": int(est[4])} if len(est) > 4 and est[4] else {}
-        r, msg, _, _, _ = L.run_lme(qt, empi, est[1], est[2], mode_proj_order=est[3], **kw)
+        r, msg, _, _, _ = L.run_lme(qt, empi, est[1], est[2], mode_proj_order=est[3], **est_kwargs(est))
     return r.estimated_qoperation, np.array(r.estimated_var), r, msg
 
 
@@ -342,6 +377,38 @@ def eval_spec(spec):
                     viol(f"C10/{fam}/{kind}/iterate-infeasible",
                          f"{name}: iterate {i}/{len(xs) - 1} eq defect {e2:.2e} min eig {m2:.2e}", est)
                     break
+    # --- the same loss / algorithm objects for a second tomography of the same type and size (other tester rotation): the estimate
+    #     must be the one fresh objects give, i.e. exact data of the second experiment's object are recovered as well
+    if spec.get("reuse") or (data.startswith("exact") and spec["sys"] == "1qubit" and kind != "qmpt"
+                             and "seq_ests" not in spec and spec["salt"] % 3 == 0):
+        qt2, c2, m2 = L.make_qt(g, kind, spec["sys"], spec["para"], m=spec["m"], eps_proj_physical=spec["eps_proj"])
+        true2 = L.true_object(g, kind, c2, m2, "boundary" if data == "exact_b" else "interior")
+        empi_2 = L.exact_data(qt2, true2, shots=spec.get("exact_shots", 1000))
+        for est in [tuple(e) for e in spec.get("reuse_ests", _reuse_default(spec))]:
+            name = est_name(est)
+            if "reuse_ests" not in spec and iters.get(name, 10 ** 9) > 150:
+                continue
+            kw = est_kwargs(est)
+            mw = kw.pop("mode_weight", "identity")
+            try:
+                Lc, LOc = L.LOSSES[est[1]]
+                Ac, AOc = L.ALGOS[est[2]]
+                lobj, aobj, aopt, e_ = Lc(qt.num_variables), Ac(), AOc(mode_proj_order=est[3], **kw), L.LossMinimizationEstimator()
+                L.quiet(e_.calc_estimate, qt, empi, lobj, LOc(mw), aobj, aopt)
+                r2, _ = L.quiet(e_.calc_estimate, qt2, empi_2, lobj, LOc(mw), aobj, aopt)
+                got = np.array(r2.estimated_var, dtype=float)
+                fresh = np.array(L.run_lme(qt2, empi_2, est[1], est[2], history=False, mode_proj_order=est[3], mode_weight=mw, **kw)[0]
+                                 .estimated_var, dtype=float)
+                cnt("loss object re-used for a second tomography")
+                dd = float(np.linalg.norm(got - fresh))
+                if dd > 1e-7:
+                    rs = dict(spec, ests=[], seq_ests=[], reuse=True, reuse_ests=[list(est)])
+                    out["viol"].append({"signature": f"C10/pgdb/{kind}/stale-model-in-reused-loss-object",
+                                        "what": f"{name}: loss/algorithm objects re-used for a second tomography: estimate differs from "
+                                                f"the fresh-object estimate by {dd:.3e} (exact data of the second object not recovered)",
+                                        "replay": {"kind": "cell", "spec": rs}})
+            except Exception as ex:  # noqa
+                viol(f"C10/pgdb/raises/{type(ex).__name__}:reuse/{kind}", f"{name}: re-use run: {type(ex).__name__}: {str(ex)[:200]}", est)
     # --- a sequence of data sets is estimated element by element (same estimator objects reused across the sequence)
     if data == "few" and spec["sys"] == "1qubit" and kind != "qmpt" and not spec.get("noseq"):
         empi2 = L.fewshot_data(g, qt, true, max(1, spec["shots"] // 2 + 1))
